@@ -459,12 +459,26 @@ def spec_form(ex, st, ctx, e):
         pre = ctx.pre
         if pre is None:
             raise OutOfSubset("old() outside a postcondition", e)
+        # old(e) is a function of the (immutable) pre-state and of the spec frame's variables: memoised
+        fr_now = st.frames.get(ctx.fid, {})
+        names = sorted(set(n.id for n in ast.walk(e.args[0]) if isinstance(n, ast.Name)))
+        try:
+            key = (ast.dump(e.args[0]), id(pre), ctx.fid,
+                   tuple((n, fr_now[n].get_id() if hasattr(fr_now.get(n), "get_id") else None) for n in names))
+        except Exception:
+            key = None
+        memo = ex.__dict__.setdefault("_old_memo", {})
+        if key is not None and key in memo:
+            return memo[key][0]
         p2 = pre.fork()
         # parameters/locals of the spec frame are visible in the pre-state too
         p2.frames.setdefault(ctx.fid, {})
         for k, v in st.frames.get(ctx.fid, {}).items():
             p2.frames[ctx.fid].setdefault(k, v)
-        return ex.eval(e.args[0], p2, ctx.derive(pre=None))
+        out = ex.eval(e.args[0], p2, ctx.derive(pre=None))
+        if key is not None:
+            memo[key] = (out, pre)        # keep `pre` alive so that its id is not reused
+        return out
     if f in ("forall", "exists"):
         lam = e.args[0]
         names = [a.arg for a in lam.args.args]
